@@ -8,6 +8,8 @@ mod c08;
 mod c10;
 mod c11;
 mod c12;
+mod c15;
+mod c16;
 mod exec;
 mod fileck;
 mod gen;
@@ -72,6 +74,11 @@ fn parse_args() -> (String, Ctx) {
 fn main() {
     util::install_panic_hook();
     let (cmd, ctx) = parse_args();
+    if cmd == "cfg-worker" {
+        let r = c16::worker(&ctx);
+        println!("{}", serde_json::to_string(&r).unwrap());
+        return;
+    }
     let shard: Shard = match cmd.as_str() {
         "C01" => c01::run(&ctx, c01::Mode::C01),
         "C02" => c02::run(&ctx),
@@ -83,6 +90,8 @@ fn main() {
         "C10" => c10::run(&ctx),
         "C11" => c11::run(&ctx),
         "C12" => c12::run(&ctx),
+        "C15" => c15::run(&ctx),
+        "C16" => c16::run(&ctx),
         _ => usage(),
     };
     shard.write(&ctx.out);
